@@ -686,7 +686,7 @@ def run(ctx):
     if not ctx.replay:
         # the canonical rendering of every operator tree of this run goes through the lowering tie as well
         ltexts = [(f"c11:{cid}", "c11-trees", r["src"]["canon"]) for cid, r in res.items() if r["src"].get("canon")]
-        lower_cov = lowertie.run(ctx, ["corpus", "names", "gen", "mutants", "crlf"], ltexts)
+        lower_cov = lowertie.run(ctx, ["corpus", "names", "gen", "mutants", "crlf", "chains"], ltexts)
         n_eval += lower_cov.get("lower_texts", 0)
 
     n_str = sum(v for c, v in lit_classes.items() if c.startswith(('str-', 'mstr-')))
